@@ -366,6 +366,54 @@ int runShutdown(int argc, char **argv)
         evs("main-return");
         return 0;
     }
+    if (path == "P3C") { // like P3, but the logger has already been through a move/reset cycle (and is moved again) before the exit
+        {
+            QCoreApplication app(argc, argv);
+            setupSingleton(false);
+            startRacers();
+            for (int c = 0; c < (cycles > 0 ? cycles : 1); ++c) {
+                fill();
+                ev('S', c);
+                gQtLogger.resetOwnThread();
+                ev('E', c);
+                ev('M', c + 1);
+                gQtLogger.moveToOwnThread();
+            }
+            fill();
+            stopRacers();
+        }
+        evs("main-return");
+        return 0;
+    }
+    if (path == "P3T") { // two applications one after the other in one process, none of them ever runs an event loop
+        for (int round = 0; round < 2; ++round) {
+            QCoreApplication app(argc, argv);
+            if (round == 0) {
+                setupSingleton(false);
+            } else {
+                ev('M', round);
+                gQtLogger.moveToOwnThread();
+            }
+            fill();
+            // ~QCoreApplication must stop the own thread and drain the backlog
+        }
+        evs("main-return");
+        return 0;
+    }
+    if (path == "P3O") { // another handler of the same kind was stopped earlier; this one is still running at the exit
+        {
+            QCoreApplication app(argc, argv);
+            auto first = new OwnThreadHandler<SimplePipeline>();
+            *first << sink;
+            first->moveToOwnThread();
+            first->resetOwnThread();
+            setupSingleton(false);
+            fill();
+            delete first;
+        }
+        evs("main-return");
+        return 0;
+    }
     if (path == "P4") { // exit() inside main, application object alive on the stack
         QCoreApplication app(argc, argv);
         setupSingleton(false);
